@@ -378,3 +378,10 @@ LEVEL_TEXT = ("Fault enumeration: every fault script up to depth 2 (quick) / 3 (
 LEVEL_NOTE = ("Trusted: the fake transports mirror CPython 3.12.1 selector transports; the ready queue is not "
               "permuted (asyncio guarantees FIFO); timing near-ties are generated explicitly at +/-2^-20 s.")
 TECHNIQUE = "deterministic simulation (virtual-time asyncio loop) with enumerated + seeded fault scripts"
+
+
+def evidence_extra(tier):
+    scripts, combos = _sweep_space(tier)
+    return {"systematic_cases": n_sweep(tier), "seeded_cases": N_RANDOM[tier],
+            "systematic_part": "all %d fault scripts of length <= %d over the 13-symbol alphabet x %d configurations" % (
+                len(scripts), DEPTH[tier], len(combos))}
